@@ -5,3 +5,6 @@ import AnyTLS.Props.C08
 #print axioms AnyTLS.C08.fin_leaves_send_direction
 #print axioms AnyTLS.C08.local_close_propagates_refuted
 #print axioms AnyTLS.C08.forwarder_data_in_order_partial
+#print axioms AnyTLS.C08.gen_server_upstream_shuts_target
+#print axioms AnyTLS.C08.end_after_all_data
+#print axioms AnyTLS.C08.silent_end_never_reaches_sink
